@@ -31,5 +31,5 @@ fi
 echo "RESULT $name: demo_with_patch_exit=$with (want !=0) demo_without_patch_exit=$without (want 0) existing_tests=$tests" | tee -a $log
 # run the checks against the patched tree
 cd /verif; VERIF_REPO=$wt VERIF_EVIDENCE=/tmp/seedverify/ev-$name ./check all quick > $sd/checks.log 2>&1
-grep -E "violated|UNDECIDED|FAILED" $sd/checks.log | grep -v "^    " | head -20 | tee -a $log
+grep -E ": violated |UNDECIDED|FAILED" $sd/checks.log | grep -v "^    " | head -20 | tee -a $log
 git -C /repo worktree remove --force $wt
